@@ -45,6 +45,17 @@ type event struct {
 // ChildMain is the worker loop; called from TestMain when VERIF_C19_CHILD=1.
 func ChildMain() {
 	debug.SetMaxStack(512 << 20) // fail an unbounded recursion before it eats 1 GiB
+	// never outlive the parent (a fuzz worker is killed without notice, and the case in
+	// flight may be one that never ends)
+	parent := os.Getppid()
+	go func() {
+		for {
+			time.Sleep(time.Second)
+			if os.Getppid() != parent {
+				os.Exit(0)
+			}
+		}
+	}()
 	startSampler(true)
 	in := bufio.NewReaderSize(os.NewFile(3, "cases"), 1<<20)
 	out := os.NewFile(4, "events")
